@@ -3,6 +3,7 @@ package main
 import (
 	"fmt"
 	"go/token"
+	"go/types"
 	"strings"
 
 	"golang.org/x/tools/go/ssa"
@@ -148,4 +149,70 @@ func zeroLiteral(v ssa.Value) bool {
 		}
 	}
 	return true
+}
+
+// c19DistinctElements (R3): the lists the dump assembles hold one distinct object per element.
+// transferConfig builds []*RouterConfiguration (and friends) by looping over the effective maps. The module is compiled
+// with pre-1.22 loop semantics (go.mod: go 1.18): a `for k, v := range` variable is one variable for the whole loop, so
+// `append(list, &v)` stores the same pointer N times and the dump ends up with N copies of the last element. Clause: a
+// pointer appended or stored inside a loop of the dump path points to storage allocated inside that loop iteration.
+func c19DistinctElements(c *Ctx) {
+	pkg := "pkg/configmanager"
+	n := 0
+	ord := ordCounter{}
+	for _, name := range []string{"transferConfig", "DumpJSON", "getMOSNConfig", "redactedCopy"} {
+		fn := c.F(pkg, name)
+		if fn == nil {
+			continue
+		}
+		loops := naturalLoops(fn)
+		forEachInstr(fn, false, func(f *ssa.Function, in ssa.Instruction) {
+			var body map[*ssa.BasicBlock]bool
+			for _, bd := range loops {
+				if bd[in.Block()] && (body == nil || len(bd) < len(body)) {
+					body = bd
+				}
+			}
+			if body == nil {
+				return
+			}
+			var ptrs []ssa.Value
+			switch x := in.(type) {
+			case *ssa.Call:
+				if b, ok := x.Call.Value.(*ssa.Builtin); ok && b.Name() == "append" && len(x.Call.Args) == 2 {
+					// variadic pack: new [1]T; store elem; slice
+					if sl, ok := x.Call.Args[1].(*ssa.Slice); ok {
+						if al, ok := sl.X.(*ssa.Alloc); ok {
+							for _, r := range refs(al) {
+								if ia, ok := r.(*ssa.IndexAddr); ok {
+									for _, r2 := range refs(ia) {
+										if st, ok := r2.(*ssa.Store); ok && st.Addr == ssa.Value(ia) {
+											ptrs = append(ptrs, st.Val)
+										}
+									}
+								}
+							}
+						}
+					}
+				}
+			case *ssa.MapUpdate:
+				ptrs = append(ptrs, x.Value)
+			}
+			for _, p := range ptrs {
+				al, ok := p.(*ssa.Alloc)
+				if !ok {
+					continue
+				}
+				if _, isPtr := p.Type().Underlying().(*types.Pointer); !isPtr {
+					continue
+				}
+				n++
+				key := ord.next(f, "kept-pointer")
+				c.Check("C19.R3", key, in.Pos(), body[al.Block()], "the kept pointer designates storage allocated in this iteration", "inside a loop the dump keeps a pointer to a variable that lives across iterations (a range variable under pre-1.22 loop semantics): every element of the list aliases it, so the dump contains N copies of the last element and drops the others")
+			}
+		})
+	}
+	if n < 1 {
+		c.Unresolved("C19.R3", "pointers kept inside loops of the dump path (found 0)")
+	}
 }
